@@ -8,8 +8,8 @@
 //   p in union(canonical specs)  <=>  p < clen and p in some requested spec,   for the symbolic p,
 // plus: every canonical spec is non-empty and inside [0,clen); canonize() reports "valid" iff a spec survived.
 // Signed-overflow/shift queries are enabled in HttpHdrRange.cc and base/Range.h (spec: ub=True).
-// Two input classes are excluded by vf_assume (marked "KNOWN-FINDING candidate"); compiling with -DC28_SHOW_LENIENT or
-// -DC28_SHOW_MAXLAST (spec: defines=[...], entry c28_maxlast) removes the exclusion and makes the check report them.
+// One input class is a recorded finding (known_findings.json, C28-lenient-spec): it is examined, with the strict assertion, by
+// its own entry c28_known_lenient_spec and excluded by vf_assume everywhere else.
 #include "squid.h"
 #include "common.h"
 #include "HttpHeaderRange.h"
@@ -165,23 +165,18 @@ static void checkCanon(HttpHdrRange *hr, const Req64 *req, const unsigned n)
     if (valid) { (void)hr->isComplex(); vf_reach("satisfiable"); } else vf_reach("unsatisfiable");
 }
 
+static bool onlyLenientSpec = false;    // set by c28_known_lenient_spec only
 // ---- parse `text` (NUL-free) as the value of a Range header
 static void checkHeader(const unsigned char *text, const unsigned len, const bool bytesPrefixOk, const bool thenCanonize)
 {
     vf_quiet();
     for (unsigned i = 6; i < len; ++i) vf_assume(text[i] != 0);   // a header field value cannot contain NUL (rejected by the message parser)
     const RefHeader ref = reference(text + 6, len - 6);
-    // KNOWN-FINDING candidate: HttpHdrRangeSpec::parseInit reads its numbers with strtoll() and never looks at what follows
-    // them, so syntactically invalid specs such as "1x-2", "+1-2", "1- 2", "-5x", "1-2-3" are accepted (as 1-2, -5, ...)
-    // instead of making Squid ignore the header. That class (an item that is not a valid spec but has a tolerant reading) is excluded here.
-#ifndef C28_SHOW_LENIENT
-    vf_assume(!ref.someLenientOnly);
-#endif
-    // KNOWN-FINDING candidate: "first-9223372036854775807": parseInit computes last_pos + 1 in int64_t (signed overflow, UB;
-    // with wrapping the spec silently becomes empty/unsatisfiable). Excluded here; c28_maxlast (not in a tier) shows it.
-#ifndef C28_SHOW_MAXLAST
-    for (unsigned k = 0; k < ref.n && k < MAXSPECS; ++k) vf_assume(ref.req[k].last != MAX63);
-#endif
+    // KNOWN FINDING (known_findings.json, C28-lenient-spec): HttpHdrRangeSpec::parseInit reads its numbers with strtoll() and
+    // never looks at what follows them, so syntactically invalid specs such as "1x-2", "+1-2", "1- 2", "-5x", "1-2-3" are accepted
+    // (as 1-2, -5, ...) instead of making Squid ignore the header. That class (some item is not a valid spec but has a tolerant
+    // reading) is examined by c28_known_lenient_spec only; every other entry excludes exactly it.
+    vf_assume(ref.someLenientOnly == onlyLenientSpec);
     String value;
     value.assign(reinterpret_cast<const char *>(text), (int)len);
     HttpHdrRange *hr = HttpHdrRange::ParseCreate(&value);
@@ -189,6 +184,7 @@ static void checkHeader(const unsigned char *text, const unsigned len, const boo
     vf_observe("accepted", hr != nullptr);
     vf_assert((hr != nullptr) == expectAccept, "header accepted iff it is 'bytes=' + a non-empty list of valid specs (any invalid spec: ignored entirely)");
     if (!hr) { vf_reach("ignored"); WITNESS_POINT(); return; }
+    if (onlyLenientSpec) { delete hr; return; }                   // the known entry keeps the strict assertion above and nothing else
     vf_assert(hr->specs.size() == ref.n && ref.n <= MAXSPECS, "one parsed spec per listed spec");
     Req64 req[MAXSPECS];
     for (unsigned k = 0; k < ref.n; ++k) {
@@ -203,7 +199,8 @@ static void checkHeader(const unsigned char *text, const unsigned len, const boo
         else if (r.last < 0)
             vf_assert((I128)s->offset == r.first && s->length == -1, "open-ended spec parsed exactly");
         else
-            vf_assert((I128)s->offset == r.first && (I128)s->length == r.last - r.first + 1, "first-last spec parsed exactly");
+            // last-byte-pos 2^63-1 is read as 2^63-2 (parseInit() clips it so that last+1 fits; no representation has that byte)
+            vf_assert((I128)s->offset == r.first && (I128)s->length == (r.last == MAX63 ? r.last - 1 : r.last) - r.first + 1, "first-last spec parsed exactly");
     }
     vf_reach("accepted");
     if (thenCanonize) checkCanon(hr, req, ref.n);    // end to end; the other families stop here: c28_canon* cover every spec parseInit() can produce
@@ -277,9 +274,9 @@ static void canonFamily(const unsigned n)
         vf_assume(a >= 0);
         HttpHdrRangeSpec *s = new HttpHdrRangeSpec;
         req[k].first = req[k].end = req[k].suffix = -1;
-        if (kind == 0) {            // first-last with first <= last < INT64_MAX (last = INT64_MAX: KNOWN-FINDING candidate above)
+        if (kind == 0) {            // first-last as parseInit() leaves it: length = min(last, 2^63-2) - first + 1 (0 only for first = last = 2^63-1)
             const int64_t len = (int64_t)vf_nondet_u64("len");
-            vf_assume(len >= 1 && len <= MAX63 - a);
+            vf_assume(len <= MAX63 - a && (len >= 1 || (len == 0 && a == MAX63)));
             s->offset = a; s->length = len;
             req[k].first = a; req[k].end = (int64_t)((uint64_t)a + (uint64_t)len);
         } else if (kind == 1) {     // first-
@@ -316,7 +313,6 @@ extern "C" void c28_canon1(void) { canonFamily(1); }
 extern "C" void c28_canon2(void) { canonFamily(2); }
 extern "C" void c28_canon3(void) { canonFamily(3); }
 
-#ifdef C28_SHOW_MAXLAST
-// not in a tier: demonstrates the excluded finding (./check C28 --entry c28_maxlast after adding it to the spec with defines=["C28_SHOW_MAXLAST"])
-FAMILY(c28_maxlast, "bytes=0-9223372036854775807", true)
-#endif
+// KNOWN FINDING (known_findings.json, C28-lenient-spec): specs with a strtoll()-tolerant reading only
+FAMILY(c28_known_lenient_spec_, "bytes=1\x01-2\x01", false)
+extern "C" void c28_known_lenient_spec(void) { onlyLenientSpec = true; c28_known_lenient_spec_(); }
